@@ -20,9 +20,14 @@ PDefault(P, N, PERS) == UNION {UNION {{[p |-> p, n |-> n, per |-> per, form |-> 
 Dims_1d == PFull(0..3, 1..3, BOOLEAN, {1}) \cup PNone(0..3, 1..3, BOOLEAN) \cup PCoarse(1..2, {2}, BOOLEAN, {-1, 0})
 Dims_1d_big == PFull(0..3, 1..4, BOOLEAN, {1, 2}) \cup PNone(0..4, 1..5, BOOLEAN) \cup PCoarse(1..3, {2, 4}, BOOLEAN, {-1, 0, -2})
 \* small factors for products
-Dims_2a == PNone(1..2, 1..2, BOOLEAN) \cup PDefault({0, 3}, {2}, {FALSE}) \cup PFull({2}, {2}, BOOLEAN, {1})
-Dims_2b == PNone(1..2, {2}, BOOLEAN) \cup PDefault({0}, {1}, {FALSE}) \cup PDefault({3}, {3}, {TRUE}) \cup PFull({2}, {3}, {TRUE}, {1})
-Dims_tiny == PDefault(0..2, 1..3, BOOLEAN) \cup PNone({2}, {2}, BOOLEAN)
+D(p, n, per, form, ms, k) == [p |-> p, n |-> n, per |-> per, form |-> form, ms |-> ms, k |-> k]
+Dims_2a == {D(1, 2, FALSE, "none", <<>>, -1), D(2, 2, TRUE, "none", <<>>, 0), D(2, 1, TRUE, "none", <<>>, -1),
+            D(0, 2, FALSE, "none", <<>>, -1), D(3, 2, FALSE, "none", <<>>, -1), D(2, 2, FALSE, "full", <<1, 2, 1>>, -1)}
+Dims_2b == {D(1, 2, TRUE, "none", <<>>, -1), D(2, 2, FALSE, "none", <<>>, -3), D(1, 1, FALSE, "none", <<>>, -1),
+            D(2, 3, TRUE, "full", <<2, 1, 3, 2>>, -1), D(2, 2, FALSE, "none", <<>>, -1), D(0, 1, FALSE, "none", <<>>, -1)}
+Dims_2c == PNone(1..2, 1..2, BOOLEAN) \cup PDefault({0, 3}, {2}, {FALSE}) \cup PFull({2}, {2}, BOOLEAN, {1})
+Dims_2d == PNone(1..2, {2}, BOOLEAN) \cup PDefault({0}, {1}, {FALSE}) \cup PDefault({3}, {3}, {TRUE}) \cup PFull({2}, {3}, {TRUE}, {1})
+Dims_tiny == PDefault(1..2, 2..3, BOOLEAN) \cup {D(2, 2, TRUE, "none", <<>>, 0), D(0, 3, FALSE, "none", <<>>, -1), D(3, 1, TRUE, "none", <<>>, -1)}
 Dims_sim == PFull(1..3, 1..4, BOOLEAN, {1}) \cup PNone(0..3, 1..4, BOOLEAN) \cup PCoarse(1..2, {2, 4}, BOOLEAN, {-1, 0})
 Dims_mut == PFull({2}, {2, 3}, BOOLEAN, {1}) \cup PNone({2}, {2}, BOOLEAN)
 
